@@ -56,6 +56,15 @@ def universe(full):
                           ("set", set(range(n))), ("frozenset", frozenset(range(n))), ("dict", {i: i for i in range(n)}),
                           ("dict keys", {i: i for i in range(n)}.keys())):
             u.append(([7], val, "%s of length %d" % (desc, n), "not for events"))
+    # arrays of dtype object whose ELEMENTS are sequences (what np.array makes of ragged input; what unpacking would turn
+    # into two perfectly good vectors): shapes (2,), (3,), (1,), (2,1) of 2-lists / 2-tuples / (2,)-arrays / viewports
+    for shape in ((2,), (3,), (1,), (2, 1)):
+        for edesc, mk in (("2-lists", lambda: [0, 640]), ("2-tuples", lambda: (0, 480)), ("(2,)-arrays", lambda: np.array([1, 2], dtype="<i4")),
+                          ("3-lists", lambda: [1, 2, 3]), ("viewports", lambda: CameraViewPort(np.array([0, 0]), np.array([4, 4])))):
+            a = np.empty(shape, dtype=object)
+            for idx in np.ndindex(*shape):
+                a[idx] = mk()
+            u.append(([5, list(shape)], a, "object array%r of %s" % (shape, edesc), "not for events"))
     return u
 
 
@@ -131,7 +140,7 @@ def run(chk):
     full = chk.tier != "quick"
     uni = universe(True)
     chk.rule = ("complete enumeration of the property's universe: every array shape of rank 0-3 with extents 0..4 (156 shapes) x "
-                "dtypes {f4,f8,i4,i8,u1,bool,object}, lists and tuples of length 0..4, None, str, int, float, dict, object, other sequences and containers of length 0..4 (bytes, bytearray, range, deque, array.array, memoryview, set, frozenset, dict, dict keys), "
+                "dtypes {f4,f8,i4,i8,u1,bool,object}, object arrays whose elements are 2-/3-sequences or viewports, lists and tuples of length 0..4, None, str, int, float, dict, object, other sequences and containers of length 0..4 (bytes, bytearray, range, deque, array.array, memoryview, set, frozenset, dict, dict keys), "
                 "CameraViewPort — substituted for each validated argument of Data3D, ForceTorque3D, CalibrationDataBlock, "
                 "CameraViewPort, SeelabCameraData, OpticalChannelData (others valid), and two or three geometry arguments wrong at once (all triples over 12 values; all pairs of Seelab positions over 6 values); ForceTorqueTrack: all triples over a "
                 "12-shape subset + non-arrays; Event: every value x both kinds; observed: accepted / exception class, and "
